@@ -65,7 +65,8 @@ def run(ctx):
             for c in clauses:
                 idx = failing.get(c, [])
                 if not idx:
-                    ctx.finding("ENUM:%s:%s" % (c, r["type"]), "enum %s violates %s (junk text)" % (r["type"], c),
+                    ctx.finding("ENUM:%s:%s" % (c, r["type"]), "enum %s violates %s (%s)" % (
+                        r["type"], c, "%d conversions differed" % r.get("conc_diff", 0) if c.startswith("same_text_when") else "junk text"),
                                 {"type": r["type"], "junk": r["junk"]})
                 for i in idx[:40]:
                     pr = r["probes"][i - 1]
